@@ -7,5 +7,6 @@ CONSTANTS
   NGs = {1, 2}
   MCs = {0, 1}
   D13 = FALSE
-INVARIANTS TypeOK PanicsExactlyWhenNamed ReturnsAcceptable
+  M_AllMatches = TRUE
+INVARIANTS TypeOK PanicsExactlyWhenNamed AllMatchesVisited ReturnsAcceptable
 CHECK_DEADLOCK FALSE
